@@ -14,6 +14,7 @@ unsigned reading `readU` come from the independent `Spec.Codec`.
 -/
 import CamVerif.Proofs.C02
 import CamVerif.Proofs.C02Bits
+import CamVerif.Proofs.C02Kernel
 import CamVerif.Props.C01
 namespace CamVerif.C02
 open CamVerif CamVerif.Reg CamVerif.BitMask CamVerif.Spec.Codec CamVerif.Proofs.C02
@@ -347,49 +348,50 @@ new write entry (the preceding read of the old word may be logged). -/
 theorem set_value_failure_no_write (p : Profile) (port : Port) (bm : BitMask) (e : Endianness)
     (s : Sign) (address length : Int) (v : I64) (d d' : Dev) (r : R Unit)
     (h : MaskedIntReg.setValue p port bm e s address length v d = (r, d')) (hr : r ≠ .ok ()) :
-    d'.mem = d.mem ∧ writesIn d'.log = writesIn d.log := by
+    d'.mem = d.mem ∧ writesIn d'.log = writesIn d.log ∧ d'.refuse = d.refuse := by
   unfold MaskedIntReg.setValue at h
   have hrd := Proofs.C01.withRead_cases port address length d (fun data => intFromSlice data e s)
   have fin : ∀ (r0 : R Unit) (d1 : Dev), d1.mem = d.mem → writesIn d1.log = writesIn d.log →
-      (r0, d1) = (r, d') → d'.mem = d.mem ∧ writesIn d'.log = writesIn d.log := by
-    intro r0 d1 h1 h2 heq
-    injection heq with _ hd; subst hd; exact ⟨h1, h2⟩
+      d1.refuse = d.refuse →
+      (r0, d1) = (r, d') → d'.mem = d.mem ∧ writesIn d'.log = writesIn d.log ∧ d'.refuse = d.refuse := by
+    intro r0 d1 h1 h2 h3 heq
+    injection heq with _ hd; subst hd; exact ⟨h1, h2, h3⟩
   rcases hrd with ⟨he, _⟩ | ⟨he, _⟩ | ⟨he, _⟩ | ⟨he, _⟩ <;> rw [he] at h
-  · exact fin _ d rfl rfl h
-  · exact fin _ d rfl rfl h
-  · exact fin _ (Proofs.C01.afterRefusal d) rfl rfl h
+  · exact fin _ d rfl rfl rfl h
+  · exact fin _ d rfl rfl rfl h
+  · exact fin _ (Proofs.C01.afterRefusal d) rfl rfl rfl h
   · have hm : (afterRead d address (asUsize length)).mem = d.mem := rfl
     have hw : writesIn (afterRead d address (asUsize length)).log = writesIn d.log :=
       Proofs.C01.writesIn_append_read _ _ _ _
     cases hfs : intFromSlice (d.mem.readRange address (asUsize length)) e s with
-    | err er => rw [hfs] at h; exact fin _ _ hm hw h
-    | panic => rw [hfs] at h; exact fin _ _ hm hw h
+    | err er => rw [hfs] at h; exact fin _ _ hm hw rfl h
+    | panic => rw [hfs] at h; exact fin _ _ hm hw rfl h
     | ok old =>
       rw [hfs] at h
       simp only [] at h
       cases hmv : bm.maskedValue p old v (lenUsize length) e s with
-      | err er => rw [hmv] at h; exact fin _ _ hm hw h
-      | panic => rw [hmv] at h; exact fin _ _ hm hw h
+      | err er => rw [hmv] at h; exact fin _ _ hm hw rfl h
+      | panic => rw [hmv] at h; exact fin _ _ hm hw rfl h
       | ok new =>
         rw [hmv] at h
         simp only [] at h
         cases hal : allocLen length with
-        | err er => rw [hal] at h; exact fin _ _ hm hw h
-        | panic => rw [hal] at h; exact fin _ _ hm hw h
+        | err er => rw [hal] at h; exact fin _ _ hm hw rfl h
+        | panic => rw [hal] at h; exact fin _ _ hm hw rfl h
         | ok k =>
           rw [hal] at h
           simp only [] at h
           cases hb : bytesFromInt new k e s with
-          | err er => rw [hb] at h; exact fin _ _ hm hw h
-          | panic => rw [hb] at h; exact fin _ _ hm hw h
+          | err er => rw [hb] at h; exact fin _ _ hm hw rfl h
+          | panic => rw [hb] at h; exact fin _ _ hm hw rfl h
           | ok buf =>
             rw [hb] at h
             simp only [] at h
             rcases Proofs.C01.writeAndCache_cases port address length buf (afterRead d address (asUsize length)) with
               ⟨_, hw2⟩ | ⟨_, _, hw2⟩ | ⟨_, _, _, hw2⟩ | ⟨_, _, _, hw2⟩ <;> rw [hw2] at h
-            · exact fin _ _ hm hw h
-            · exact fin _ _ hm hw h
-            · exact fin _ (Proofs.C01.afterRefusal (afterRead d address (asUsize length))) hm hw h
+            · exact fin _ _ hm hw rfl h
+            · exact fin _ _ hm hw rfl h
+            · exact fin _ (Proofs.C01.afterRefusal (afterRead d address (asUsize length))) hm hw rfl h
             · injection h with h1 _
               exact absurd h1.symm hr
 
@@ -408,7 +410,7 @@ theorem set_value_on_device (p : Profile) (port : Port) (hp : port.hasChunkId = 
     ∃ d1 d2 newBytes,
       MaskedIntReg.setValue p port bm e s address n v d = (.ok (), d1) ∧
       d1.log = d.log ++ [⟨.read, address, n, d.mem.readRange address n⟩, ⟨.write, address, n, newBytes⟩] ∧
-      d1.mem = d.mem.writeRange address newBytes ∧ newBytes.length = n ∧
+      d1.mem = d.mem.writeRange address newBytes ∧ newBytes.length = n ∧ d1.refuse = d.refuse ∧
       (∀ x, x < address ∨ address + (n : Int) ≤ x → d1.mem x = d.mem x) ∧
       (∀ i, i < 8 * n → ¬ InField n e bm i →
         (readU e (d1.mem.readRange address n)).testBit i = (readU e (d.mem.readRange address n)).testBit i) ∧
@@ -461,7 +463,7 @@ theorem set_value_on_device (p : Profile) (port : Port) (hp : port.hasChunkId = 
     rw [Proofs.C01.readU_eq]
     exact Proofs.C01.intOfBytes_getLsbD n oldBytes e s i hi (by omega)
   have hnorm := norm_positions n e bm wf
-  refine ⟨d1, afterRead d1 address n, newBytes, ?_, ?_, rfl, hnl, ?_, ?_, ?_, ?_, rfl, ?_⟩
+  refine ⟨d1, afterRead d1 address n, newBytes, ?_, ?_, rfl, hnl, rfl, ?_, ?_, ?_, ?_, rfl, ?_⟩
   · unfold MaskedIntReg.setValue
     rw [hread]
     simp only []
@@ -502,5 +504,275 @@ theorem set_value_on_device (p : Profile) (port : Port) (hp : port.hasChunkId = 
           rw [hnb, hword i hi8])
     rw [hsame]
   · simp [afterRead, hmem1]
+
+/-! ## Kernel-only mirror of the headline isolation statement -/
+
+/-- **write_isolated (kernel-only)**: the same isolation statement as in
+`write_isolated_reads_back`, proved WITHOUT `bv_decide` (bit extensionality,
+`Nat.testBit_two_pow_sub_one`, `omega`): whenever `masked_value` succeeds on a well-formed
+description, every bit `i < 64` outside the field `l..m` of the new word equals the old
+bit.  Its axiom set is the three standard ones only (see the audit), so isolation does not
+rest on the native `bv_decide` axiom alone. -/
+theorem write_isolated_kernel_only (p : Profile) (n : Nat) (e : Endianness) (s : Sign)
+    (bm : BitMask) (wf : WF n e bm) (old v new : I64)
+    (h : bm.maskedValue p old v (lenUsize n) e s = .ok new) :
+    ∀ i, i < 64 → ¬ InField n e bm i → new.getLsbD i = old.getLsbD i := by
+  intro i hi64 hout
+  obtain ⟨mask, hmask, hiso⟩ := Proofs.C02K.maskedValue_isolated p bm old v _ e s new h
+  rw [Proofs.C02K.mask_eq_kernel p n e bm wf] at hmask
+  injection hmask with hmask
+  subst hmask
+  have hle := wf.2.2.2
+  rw [BitVec.le_def] at hle
+  have hm : (fHi n e bm).toNat < 64 := by
+    have := normB_lt_64 n wf.1 e bm.rawMsb wf.2.2.1
+    rw [BitVec.lt_def] at this; exact this
+  have hbit := Proofs.C02K.fieldMask_getLsbD (fLo n e bm) (fHi n e bm) hle hm i hi64
+  have hfalse : (fieldMask (fLo n e bm) (fHi n e bm)).getLsbD i = false := by
+    rw [hbit]; exact decide_eq_false hout
+  have := congrArg (fun w => BitVec.getLsbD w i) hiso
+  simp only [BitVec.getLsbD_and, BitVec.getLsbD_not, hfalse, hi64, decide_true, Bool.true_and,
+    Bool.not_false, Bool.and_true] at this
+  exact this
+
+/-! ## siblings on the device: any interleaved history of `set_value` calls -/
+
+/-- the register word held by the device: unsigned reading (independent `Spec.readU`) of
+the bytes `[address, address+n)` in the declared byte order -/
+def regWord (e : Endianness) (address : Int) (n : Nat) (d : Dev) : I64 :=
+  BitVec.ofNat 64 (readU e (d.mem.readRange address n))
+
+private theorem specMerge_getLsbD (l m old v : BitVec 64) (hle : l ≤ m) (hlt : m < 64) (i : Nat)
+    (hi64 : i < 64) :
+    (specMerge l m old v).getLsbD i =
+      if l.toNat ≤ i ∧ i ≤ m.toNat then v.getLsbD (i - l.toNat) else old.getLsbD i := by
+  have key := specMerge_bitAt l m old v (BitVec.ofNat 64 i) hle hlt (ofNat_lt_64 i hi64)
+  rw [← getLsbD_eq_bitAt _ i hi64, ← getLsbD_eq_bitAt _ i hi64] at key
+  have hc : (l ≤ BitVec.ofNat 64 i ∧ BitVec.ofNat 64 i ≤ m) ↔ (l.toNat ≤ i ∧ i ≤ m.toNat) := by
+    rw [BitVec.le_def, BitVec.le_def, BitVec.toNat_ofNat, Nat.mod_eq_of_lt (by omega)]
+  rw [key]
+  by_cases h : l.toNat ≤ i ∧ i ≤ m.toNat
+  · rw [if_pos (hc.mpr h), if_pos h, bitAt_eq]
+    congr 1
+    rw [BitVec.toNat_sub_of_le (hc.mpr h).1, BitVec.toNat_ofNat, Nat.mod_eq_of_lt (by omega)]
+  · rw [if_neg (fun h' => h (hc.mp h')), if_neg h]
+
+private theorem regWord_getLsbD (e : Endianness) (address : Int) (n : Nat) (_hn : IntLen n) (d : Dev)
+    (i : Nat) (hi64 : i < 64) :
+    (regWord e address n d).getLsbD i = (readU e (d.mem.readRange address n)).testBit i ∧
+    (8 * n ≤ i → (readU e (d.mem.readRange address n)).testBit i = false) := by
+  constructor
+  · simp only [regWord, BitVec.getLsbD_ofNat, hi64, decide_true, Bool.true_and]
+  · intro hge
+    have hlt := Proofs.C01.readUnsigned_lt e (d.mem.readRange address n)
+    rw [Proofs.C01.readRange_length, show (256 : Nat) = 2 ^ 8 from rfl, ← Nat.pow_mul] at hlt
+    rw [Proofs.C01.readU_eq]
+    apply Nat.testBit_lt_two_pow
+    exact Nat.lt_of_lt_of_le hlt (Nat.pow_le_pow_right (by omega) hge)
+
+private theorem accepts_iff (s : Sign) (l m v : BitVec 64) :
+    (Field.accepts ⟨s, l, m⟩ v = true) ↔ ¬ ((specMax s l m).slt v = true ∨ v.slt (specMin s l m) = true) := by
+  simp only [Field.accepts, Bool.and_eq_true, BitVec.sle_iff_toInt_le, BitVec.slt_iff_toInt_lt]
+  omega
+
+/-- **one `set_value` step on the device** (plain port, answering device, `WF`): whatever the
+value, afterwards the device still answers, no byte outside the register changed, and the
+register word is `stepWord`: merged when the value is accepted, unchanged when refused. -/
+theorem set_value_step (p : Profile) (port : Port) (hp : port.hasChunkId = false)
+    (n : Nat) (e : Endianness) (s : Sign) (bm : BitMask) (wf : WF n e bm) (address : Int)
+    (v : I64) (d : Dev) (hd : d.Reliable) :
+    let d1 := (MaskedIntReg.setValue p port bm e s address n v d).2
+    d1.Reliable ∧
+    (∀ x, x < address ∨ address + (n : Int) ≤ x → d1.mem x = d.mem x) ∧
+    regWord e address n d1 =
+      (if Field.accepts ⟨s, fLo n e bm, fHi n e bm⟩ v then
+        specMerge (fLo n e bm) (fHi n e bm) (regWord e address n d) v
+       else regWord e address n d) ∧
+    ((MaskedIntReg.setValue p port bm e s address n v d).1 = .ok () ↔
+      Field.accepts ⟨s, fLo n e bm, fHi n e bm⟩ v = true) := by
+  have hn := wf.1
+  have hlt := intLen_lt hn
+  have hle := wf_le n e bm wf
+  have hlt64 := wf_lt n e bm wf
+  have hnorm := norm_positions n e bm wf
+  by_cases hacc : Field.accepts ⟨s, fLo n e bm, fHi n e bm⟩ v = true
+  · -- accepted
+    have hv : InRangeOf (specMin s (fLo n e bm) (fHi n e bm)) (specMax s (fLo n e bm) (fHi n e bm)) v := by
+      simp only [Field.accepts, Bool.and_eq_true, BitVec.sle_iff_toInt_le] at hacc
+      exact hacc
+    obtain ⟨d1, d2, newBytes, hset, hlog, hmem, hnl, hrefuse, hframe, hout, hin, _⟩ :=
+      set_value_on_device p port hp n e s bm wf address v _ _ (min_eq p n e bm wf s)
+        (max_eq p n e bm wf s) hv d hd
+    simp only [hset, hacc, if_true]
+    refine ⟨?_, hframe, ?_, by simp⟩
+    · intro k; rw [hrefuse]; exact hd k
+    · apply BitVec.eq_of_getLsbD_eq
+      intro i hi64
+      rw [specMerge_getLsbD _ _ _ _ hle hlt64 i hi64]
+      obtain ⟨hw1, hz1⟩ := regWord_getLsbD e address n hn d1 i hi64
+      obtain ⟨hw0, hz0⟩ := regWord_getLsbD e address n hn d i hi64
+      rw [hw1, hw0]
+      by_cases hi8 : i < 8 * n
+      · by_cases hf : InField n e bm i
+        · have hf' : (fLo n e bm).toNat ≤ i ∧ i ≤ (fHi n e bm).toNat := hf
+          rw [if_pos hf']; exact hin i hi8 hf
+        · have hf' : ¬ ((fLo n e bm).toNat ≤ i ∧ i ≤ (fHi n e bm).toNat) := hf
+          rw [if_neg hf']; exact hout i hi8 hf
+      · have hf : ¬ ((fLo n e bm).toNat ≤ i ∧ i ≤ (fHi n e bm).toNat) := by
+          have := hnorm.2.2.2; omega
+        rw [if_neg hf, hz1 (by omega), hz0 (by omega)]
+  · -- refused: the result is an error, hence nothing was written
+    have hacc' : Field.accepts ⟨s, fLo n e bm, fHi n e bm⟩ v = false := by simpa using hacc
+    have herr : (MaskedIntReg.setValue p port bm e s address n v d).1 ≠ .ok () := by
+      have hol : (d.mem.readRange address n).length = n := Proofs.C01.readRange_length _ _ _
+      have hread : withRead port address n d (fun data => intFromSlice data e s) =
+          (.ok (intOfBytes n (d.mem.readRange address n) e s), afterRead d address n) := by
+        rcases Proofs.C01.withRead_cases port address n d (fun data => intFromSlice data e s) with
+          ⟨_, h⟩ | ⟨_, h⟩ | ⟨_, h⟩ | ⟨h, _⟩
+        · rw [asUsize_nat n hlt] at h; exact absurd hlt h
+        · rw [hp] at h; cases h
+        · rw [hd] at h; cases h
+        · rw [h, asUsize_nat n hlt, Proofs.C01.intFromSlice_of_len n hn _ hol]
+      unfold MaskedIntReg.setValue
+      rw [hread]
+      simp only []
+      have hcond : (specMax s (fLo n e bm) (fHi n e bm)).slt v = true ∨
+          v.slt (specMin s (fLo n e bm) (fHi n e bm)) = true := by
+        apply Classical.byContradiction
+        intro hc
+        exact hacc ((accepts_iff s (fLo n e bm) (fHi n e bm) v).mpr hc)
+      rw [maskedValue_eq p n e bm wf, if_pos hcond]
+      simp
+    have hnw := set_value_failure_no_write p port bm e s address n v d
+      (MaskedIntReg.setValue p port bm e s address n v d).2
+      (MaskedIntReg.setValue p port bm e s address n v d).1 rfl herr
+    simp only [hacc', Bool.false_eq_true, if_false, iff_false]
+    refine ⟨?_, fun x _ => by rw [hnw.1], ?_, herr⟩
+    · intro k; rw [hnw.2.2]; exact hd k
+    · simp only [regWord, hnw.1]
+
+/-- **`value()` on the device** (plain port, answering device, `WF`): one read, and the
+result is the specification's field extraction from the register word held by the device. -/
+theorem value_on_device (p : Profile) (port : Port) (hp : port.hasChunkId = false)
+    (n : Nat) (e : Endianness) (s : Sign) (bm : BitMask) (wf : WF n e bm) (address : Int)
+    (d : Dev) (hd : d.Reliable) :
+    MaskedIntReg.value p port bm e s address n d =
+      (.ok (specExtract s (fLo n e bm) (fHi n e bm) (regWord e address n d)), afterRead d address n) := by
+  have hn := wf.1
+  have hlt := intLen_lt hn
+  have hnorm := norm_positions n e bm wf
+  have hol : (d.mem.readRange address n).length = n := Proofs.C01.readRange_length _ _ _
+  have hread : withRead port address n d (fun data => intFromSlice data e s) =
+      (.ok (intOfBytes n (d.mem.readRange address n) e s), afterRead d address n) := by
+    rcases Proofs.C01.withRead_cases port address n d (fun data => intFromSlice data e s) with
+      ⟨_, h⟩ | ⟨_, h⟩ | ⟨_, h⟩ | ⟨h, _⟩
+    · rw [asUsize_nat n hlt] at h; exact absurd hlt h
+    · rw [hp] at h; cases h
+    · rw [hd] at h; cases h
+    · rw [h, asUsize_nat n hlt, Proofs.C01.intFromSlice_of_len n hn _ hol]
+  unfold MaskedIntReg.value
+  rw [hread]
+  simp only []
+  rw [applyMask_eq p n e bm wf]
+  congr 2
+  apply specExtract_congr s _ _ _ _ (wf_le n e bm wf) (wf_lt n e bm wf)
+  intro i hi
+  have hm8 : (fHi n e bm).toNat < 8 * n := hnorm.2.2.2
+  have hi' : i ≤ (fHi n e bm).toNat := hi
+  have hi8 : i < 8 * n := by omega
+  have h64 : i < 64 := by rcases hn with rfl | rfl | rfl | rfl <;> omega
+  rw [Proofs.C01.intOfBytes_getLsbD n _ e s i hi8 h64, (regWord_getLsbD e address n hn d i h64).1,
+    Proofs.C01.readU_eq]
+
+/-- one field of a shared register: its mask description and sign (what a `StructEntry`
+or a `MaskedIntReg` on the same address contributes) -/
+structure FieldDesc where
+  bm : BitMask
+  s : Sign
+
+/-- the normalised field of a description -/
+def toField (n : Nat) (e : Endianness) (fd : FieldDesc) : Field :=
+  ⟨fd.s, fLo n e fd.bm, fHi n e fd.bm⟩
+
+/-- the device after a history of uncached `set_value(v)` calls on fields of one register
+(`(k, v)` = write `v` through field number `k`; results are ignored like a caller that
+carries on after a refusal) -/
+def runDev (p : Profile) (port : Port) (n : Nat) (e : Endianness) (address : Int)
+    (descs : List FieldDesc) : Dev → List (Nat × I64) → Dev
+  | d, [] => d
+  | d, op :: ops =>
+    match descs[op.1]? with
+    | some fd => runDev p port n e address descs
+        (MaskedIntReg.setValue p port fd.bm e fd.s address n op.2 d).2 ops
+    | none => runDev p port n e address descs d ops
+
+private theorem runDev_word (p : Profile) (port : Port) (hp : port.hasChunkId = false)
+    (n : Nat) (e : Endianness) (address : Int) (descs : List FieldDesc)
+    (hwf : ∀ fd ∈ descs, WF n e fd.bm) (ops : List (Nat × I64)) (d : Dev) (hd : d.Reliable) :
+    (runDev p port n e address descs d ops).Reliable ∧
+    (∀ x, x < address ∨ address + (n : Int) ≤ x → (runDev p port n e address descs d ops).mem x = d.mem x) ∧
+    regWord e address n (runDev p port n e address descs d ops) =
+      runWord (descs.map (toField n e)) (regWord e address n d) ops := by
+  induction ops generalizing d with
+  | nil => exact ⟨hd, fun _ _ => rfl, rfl⟩
+  | cons op ops ih =>
+    simp only [runDev, runWord, List.foldl_cons]
+    cases hk : descs[op.1]? with
+    | none =>
+      have : (descs.map (toField n e))[op.1]? = none := by simp [hk]
+      simp only [stepWord, this]
+      exact ih d hd
+    | some fd =>
+      have hmem : fd ∈ descs := List.mem_of_getElem? hk
+      have hmap : (descs.map (toField n e))[op.1]? = some (toField n e fd) := by simp [hk]
+      obtain ⟨h1, h2, h3, _⟩ := set_value_step p port hp n e fd.s fd.bm (hwf fd hmem) address op.2 d hd
+      obtain ⟨i1, i2, i3⟩ := ih _ h1
+      refine ⟨i1, fun x hx => by rw [i2 x hx, h2 x hx], ?_⟩
+      rw [i3, h3]
+      simp only [stepWord, hmap, toField, runWord]
+
+/-- **siblings on the device**: several bit fields (entries of one `StructReg`, or
+`MaskedIntReg`s on the same register) with pairwise disjoint normalised bit ranges, caching
+off, plain port, answering device.  After ANY interleaved history of `set_value` calls —
+accepted or refused, in any order, any number — `value()` of every field returns its last
+accepted written value, or its initial content if it was never written; and no byte of the
+device outside the register has changed.  By induction over the history. -/
+theorem siblings_on_device (p : Profile) (port : Port) (hp : port.hasChunkId = false)
+    (n : Nat) (e : Endianness) (address : Int) (descs : List FieldDesc)
+    (hwf : ∀ fd ∈ descs, WF n e fd.bm)
+    (hdis : ∀ i j (hi : i < descs.length) (hj : j < descs.length), i ≠ j →
+      (toField n e descs[i]).Disjoint (toField n e descs[j]))
+    (d : Dev) (hd : d.Reliable) (ops : List (Nat × I64)) (j : Nat) (hj : j < descs.length) :
+    (MaskedIntReg.value p port descs[j].bm e descs[j].s address n
+        (runDev p port n e address descs d ops)).1 =
+      .ok (expected (toField n e descs[j]) (regWord e address n d)
+            (lastWritten (descs.map (toField n e)) j none ops)) ∧
+    (∀ x, x < address ∨ address + (n : Int) ≤ x →
+      (runDev p port n e address descs d ops).mem x = d.mem x) := by
+  obtain ⟨h1, h2, h3⟩ := runDev_word p port hp n e address descs hwf ops d hd
+  refine ⟨?_, h2⟩
+  rw [value_on_device p port hp n e descs[j].s descs[j].bm (hwf _ (List.getElem_mem hj)) address _ h1, h3]
+  simp only []
+  congr 1
+  let fs := descs.map (toField n e)
+  have hlen : fs.length = descs.length := by simp [fs]
+  have hget : ∀ k (hk : k < descs.length), fs[k]'(by rw [hlen]; exact hk) = toField n e descs[k] := by
+    intro k hk; simp [fs]
+  have hok : ∀ f ∈ fs, f.Ok := by
+    intro f hf
+    obtain ⟨fd, hfd, rfl⟩ := List.mem_map.mp hf
+    exact ⟨wf_le n e fd.bm (hwf fd hfd), wf_lt n e fd.bm (hwf fd hfd)⟩
+  have hdis' : ∀ i k (hi : i < fs.length) (hk : k < fs.length), i ≠ k → (fs[i]).Disjoint (fs[k]) := by
+    intro i k hi hk hne
+    rw [hget i (by rw [← hlen]; exact hi), hget k (by rw [← hlen]; exact hk)]
+    exact hdis i k _ _ hne
+  have := siblings fs hok hdis' (regWord e address n d) ops j (by rw [hlen]; exact hj)
+  rw [hget j hj] at this
+  exact this
+
+example : WF 2 .le (.range 0 3) ∧ WF 2 .le (.range 4 11) ∧ WF 2 .le (.singleBit 15) ∧
+    (toField 2 .le ⟨.range 0 3, .unsigned⟩).Disjoint (toField 2 .le ⟨.range 4 11, .signed⟩) ∧
+    (toField 2 .le ⟨.range 4 11, .signed⟩).Disjoint (toField 2 .le ⟨.singleBit 15, .unsigned⟩) := by
+  decide
 
 end CamVerif.C02
